@@ -17,6 +17,7 @@ import SxVerif.Generated.Wiring
 import SxVerif.Generated.Limiter
 import SxVerif.Generated.Blocking
 import SxVerif.Spec.Blocking
+import SxVerif.Proofs.CaptureSource
 
 namespace SxVerif.C12
 open SxVerif.Engine SxVerif.Generated SxVerif.StageDesc
@@ -183,5 +184,20 @@ theorem C12_packet_errc_closes (inp : Pipe.Input) (s : Pipe.Sys) (h : Pipe.Reach
     ∃ evs s', evs.length ≤ 8 ∧ (∀ e ∈ evs, Pipe.isReturnEv e = true) ∧ Pipe.run C07.cfg inp s evs = some s' ∧
       s'.merr.closed = true :=
   C07.C07_errc_closes_after_cancel inp s h hc
+
+
+/-- (T) the capture source follows the lock protocol of `Model/CaptureSource.lean`: `Close` = lock, deferred unlock,
+    `closed = true`, unmap; one read = lock, EOF if closed, read-and-copy, unlock (regenerated from
+    pkg/packet/afpacket/readwriter.go) -/
+theorem capture_source_protocol : SxVerif.Generated.sourceDesc = SxVerif.CaptureSource.modelled := by decide
+
+/-- **no read ever touches an unmapped ring**: any number of receiver goroutines (one is left behind by every engine
+    run / port chunk) and any number of `Close` calls, interleaved in any way — the D25 crash cannot happen -/
+theorem capture_source_never_faults (s : SxVerif.CaptureSource.Sys) (h : SxVerif.CaptureSource.Reachable s) :
+    s.fault = false := (SxVerif.CaptureSource.inv_reachable h).noFault
+
+/-- once closed, always closed: a receiver that is left behind can only get io.EOF out of the source -/
+theorem capture_source_closed_stays {s t : SxVerif.CaptureSource.Sys} (hs : SxVerif.CaptureSource.Step s t)
+    (hc : s.closed = true) : t.closed = true := SxVerif.CaptureSource.closed_mono hs hc
 
 end SxVerif.C12
